@@ -475,6 +475,7 @@ void GlobalGraph::deleteNode(Graph::NodeId node)
   nodeStructure_.erase(found);
 
   this->topologyHasChanged_();
+  notifyDeletedNodes(std::vector<Graph::NodeId>(1, node));
 }
 
 void GlobalGraph::isolate_(GlobalGraph::Node& node)
